@@ -22,7 +22,8 @@ RULE = (
     "check_safety(p_i).severity, ranked by an own table from the documented order; then "
     "max-rank of the findings == s_i and s_i is LIKELY_SAFE iff there are no findings; "
     "is_likely_safe(file) == (rank s_0 == 0); fickling.load(file) raises iff rank s_0 > 0 with "
-    "info['severity'] == s_0; CLI exit status == 0 iff all ranks are 0; the report file parsed as "
+    "info['severity'] == s_0; CLI exit status (what a real process ends with: low eight bits of main()'s value) == 0 iff all ranks are 0, "
+    "also for long stacks (255, 256, 257, 512 flagged pickles) run as `python -m fickling` in a real process; the report file parsed as "
     "concatenated JSON documents has k documents whose 'severity' are the s_i in order. Plus, "
     "exhaustively, all 36 ordered severity pairs under <, <=, >, >=, ==, != against integer "
     "comparison. Non-trivial = k >= 2 with mixed verdicts; distinct = distinct (bytes, options)."
@@ -100,6 +101,47 @@ def parse_concat_json(text):
     return docs
 
 
+def exit_status(rc):
+    """the status a real process ends with after `exit(main())`: None is 0, an int keeps its low
+    eight bits, anything else is 1"""
+    if rc is None:
+        return 0
+    if isinstance(rc, int):
+        return rc & 0xFF
+    return 1
+
+
+def check_long_stack(n_flagged, tail_benign, scratch):
+    """the CLI clause on a long stack, through a real process: zero iff every pickle is LIKELY_SAFE"""
+    import subprocess
+    import sys
+
+    from fickling.analysis import check_safety
+    from fickling.fickle import StackedPickle
+
+    flagged = [b"cos\ngetpid\n)R.", b"cbuiltins\neval\n(S'1+1'\ntR.", b"cfoo.bar\nBaz\n."]
+    parts = [flagged[i % len(flagged)] for i in range(n_flagged)] + [b"N."] * tail_benign
+    case = {"long": [n_flagged, tail_benign]}
+    sp = StackedPickle.load(b"".join(parts))
+    ranks = [RANK[check_safety(p).severity.name] for p in sp]
+    if len(ranks) != len(parts):
+        return None
+    path = os.path.join(scratch.path, "long.pkl")
+    with open(path, "wb") as f:
+        f.write(b"".join(parts))
+    from vlib import env
+
+    child_env = dict(os.environ, PYTHONPATH=os.pathsep.join([env.REPO] + [p for p in sys.path if p]))
+    pr = subprocess.run(
+        [sys.executable, "-m", "fickling", "--check-safety", "--json-output", os.path.join(scratch.path, "r.json"), path],
+        stdout=subprocess.DEVNULL, stderr=subprocess.DEVNULL, env=child_env, cwd=scratch.path, timeout=600,
+    )  # fmt: skip
+    if (pr.returncode == 0) != all(r == 0 for r in ranks):
+        return Failure(case, f"`python -m fickling --check-safety` on a stack of {n_flagged} flagged + {tail_benign} "
+                             f"harmless pickles exits {pr.returncode}; {sum(r > 0 for r in ranks)} verdicts are not LIKELY_SAFE")
+    return None
+
+
 def check_stack(parts, json_given, print_results, scratch):
     import fickling
     from fickling import cli
@@ -152,6 +194,26 @@ def check_stack(parts, json_given, print_results, scratch):
         return fail(f"fickling.load {'raised' if raised else 'returned'} but the first verdict is {sev[0]}")
     if raised is not None and raised.info.get("severity") != sev[0]:
         return fail(f"UnsafeFileError.info severity {raised.info.get('severity')} != {sev[0]}")
+    # a threshold given to the checked loader - positionally (it is the second parameter) or by
+    # keyword - moves the line, nothing else: refusal iff the first verdict lies above it
+    from fickling.analysis import Severity as _S
+
+    thr = sorted(_S, key=lambda s: RANK[s.name])[len(data) % len(RANK)]
+    for how in ("positional", "keyword"):
+        try:
+            with open(path, "rb") as f:
+                if how == "positional":
+                    fickling.load(f, thr)
+                else:
+                    fickling.load(f, max_acceptable_severity=thr)
+            refused = False
+        except UnsafeFileError:
+            refused = True
+        except Exception:  # noqa: BLE001 - accepted, and the (harmless) pickle itself failed to load
+            refused = False
+        if refused != (ranks[0] > RANK[thr.name]):
+            return fail(f"fickling.load with threshold {thr.name} given as a {how} argument "
+                        f"{'refused' if refused else 'accepted'} a first pickle rated {sev[0]}")
     # the same face through the armed standard loader, after a with-block (asking for a lenient
     # threshold where the API takes one) has come and gone
     import pickle as _pk
@@ -202,7 +264,7 @@ def check_stack(parts, json_given, print_results, scratch):
                 os.path.join(scratch.path, "no_such_dir", "report.json"), path]  # fmt: skip
         try:
             with contextlib.redirect_stdout(io.StringIO()), contextlib.redirect_stderr(io.StringIO()):
-                rc = cli.main(argv)
+                rc = exit_status(cli.main(argv))
         except BaseException:  # noqa: BLE001
             rc = 1
         if rc == 0 and any(r > 0 for r in ranks):
@@ -218,7 +280,7 @@ def check_stack(parts, json_given, print_results, scratch):
     out = io.StringIO()
     try:
         with contextlib.redirect_stdout(out), contextlib.redirect_stderr(out):
-            rc = cli.main(argv)
+            rc = exit_status(cli.main(argv))
     except BaseException as e:  # noqa: BLE001
         return fail(f"CLI raised {e!r}")
     if (rc == 0) != all(r == 0 for r in ranks):
@@ -241,6 +303,9 @@ def replay(case):
     if case.get("order_table"):
         n, bad = severity_order_table()
         return Failure(case, "severity ordering: " + "; ".join(bad[:5])) if bad else None
+    if "long" in case:
+        with Scratch("c10") as scratch:
+            return check_long_stack(case["long"][0], case["long"][1], scratch)
     with Scratch("c10") as scratch:
         return check_stack(
             [bytes.fromhex(p) for p in case["parts"]], case["json_given"], case["print_results"], scratch
@@ -249,7 +314,11 @@ def replay(case):
 
 def shards(tier):
     per = 300 if tier == "quick" else 30000
-    return [{"kind": "order"}] + [{"kind": "stacks", "n": per, "idx": i} for i in range(15)]
+    longs = [(255, 0), (256, 0), (256, 1), (257, 0), (512, 0), (0, 256)]
+    if tier != "quick":
+        longs += [(768, 3), (1024, 0), (65536, 0)]
+    return ([{"kind": "order"}] + [{"kind": "stacks", "n": per, "idx": i} for i in range(15)]
+            + [{"kind": "long", "n_flagged": a, "tail": b} for a, b in longs])
 
 
 def run_shard(spec, seed):
@@ -265,6 +334,14 @@ def run_shard(spec, seed):
         res.samples.append({"order": "LIKELY_SAFE < POSSIBLY_UNSAFE", "expected": True})
         if bad:
             res.failures.append(Failure({"order_table": True}, "severity ordering: " + "; ".join(bad[:5])))
+        return res
+    if spec["kind"] == "long":
+        with Scratch("c10") as scratch:
+            f = check_long_stack(spec["n_flagged"], spec["tail"], scratch)
+        res.note(("long", spec["n_flagged"], spec["tail"]), spec["n_flagged"] > 0, klass="long-stack",
+                 sample={"long": [spec["n_flagged"], spec["tail"]]})
+        if f is not None:
+            res.failures.append(f)
         return res
     benign = st.tuples(values.plain_values(max_leaves=5), st.sampled_from(range(6))).map(
         lambda t: pickle.dumps(t[0], protocol=t[1])
